@@ -878,4 +878,45 @@ example : ((fullLn 0 0 ⟨[], [⟨10, 0, none⟩, ⟨10, 0, none⟩, ⟨30, 0, n
     ([⟨30, 0, none⟩], [⟨10, 0, some 0⟩, ⟨10, 0, some 20⟩]) := by
   decide +kernel
 
+/-! ### the kind of a note and the row that stands for it
+
+The statement speaks about hits and holds; the model's `Spec` reads the kind of a note off its row (`length = none`
+= hit).  For the chart that goes in, the kind of a note is the list it lives in, so the reading is faithful exactly
+when both lists hold what their classes declare (`WellKinded`): no `length` values in the hit list (`Plain`, the
+hypothesis of `fullLn_spec`) and a `length` in every row of the hold list (a hold row with NaN length is a row the
+loop cannot tell from a hit: `nan_hold_counterexample`).  For the chart that comes out it holds unconditionally. -/
+
+def WellKinded {α} (m : MapM α) : Prop := Plain m ∧ ∀ r ∈ m.holds, r.length ≠ none
+
+/-- every result is well-kinded, whatever went in -/
+theorem fullLnWith_wellKinded {α} (sortF : List Row → List Row) (gap thr : Rat) (m : MapM α) :
+    WellKinded (fullLnWith sortF gap thr m) :=
+  ⟨fullLnWith_hits_plain sortF gap thr m, fullLnWith_holds_have_length sortF gap thr m⟩
+
+/-- in a well-kinded chart a note is a member of the hit list exactly when its row has no length, and of the hold
+list exactly when it has one: `Spec`'s reading of kinds is the list membership -/
+theorem wellKinded_kind {α} (m : MapM α) (h : WellKinded m) (r : Row) (hr : r ∈ ownNotes m) :
+    (r.length = none ↔ r ∈ m.hits) ∧ (r.length ≠ none ↔ r ∈ m.holds) := by
+  have e : ownNotes m = m.hits ++ m.holds := by simp only [ownNotes, map_asHit_of_none m.hits h.1]
+  rw [e, List.mem_append] at hr
+  refine ⟨⟨fun hn => ?_, fun hm => h.1 r hm⟩, ⟨fun hn => ?_, fun hm => h.2 r hm⟩⟩
+  · rcases hr with hr | hr
+    · exact hr
+    · exact absurd hn (h.2 r hr)
+  · rcases hr with hr | hr
+    · exact absurd (h.1 r hr) hn
+    · exact hr
+
+/-- a hold-list row with NaN length at the end of its column comes back in the HIT list (the loop's `isnan(length)`
+test): outside `WellKinded`, the kind of the last note is not kept.  Not a finding — no constructor, reader or
+converter of the library produces such a row (`Hold.length` defaults to a number); the harness feeds such rows at
+a low rate as correspondence-only cases. -/
+def nanHoldChart : MapM Unit := ⟨[], [], [⟨0, 0, some 10⟩, ⟨500, 0, none⟩], ()⟩
+
+theorem nan_hold_counterexample :
+    (fullLn 150 100 nanHoldChart).hits = [⟨500, 0, none⟩] ∧ (fullLn 150 100 nanHoldChart).holds = [⟨0, 0, some 350⟩] ∧
+      ¬ WellKinded nanHoldChart := by
+  refine ⟨by decide +kernel, by decide +kernel, fun h => ?_⟩
+  exact h.2 ⟨500, 0, none⟩ (by simp [nanHoldChart]) rfl
+
 end Reamber.FullLN
